@@ -142,6 +142,8 @@ def _hybrid(chk, repo):
         problems.append("`sampler` is not self.samplers[par_name]")
     chk.add("C09-R3", f"{ci.qual}.step/transitions", not problems, site(repo, inner[0] if inner else loop),
             "self.samplers[par_name].step() x num_sampling_steps[par_name]", "; ".join(problems), loop)
+    # R3b': the configured counts survive initialisation: defaults are written only where the user gave none
+    _configured_counts(chk, repo, ci)
     # R3c: state carried across the reinitialisation (starts from the block's current value)
     problems = []
     reinit = [n for n in g.nodes if n.ast is not None and n.kind == "stmt" and unparse(n.ast) == "sampler.reinitialize()"]
@@ -333,3 +335,63 @@ def _legacy(chk, repo):
     asg = [n for n in ast.walk(init) if isinstance(n, ast.Assign) and path_of(n.targets[0]) == "self.target"]
     chk.add("C09-R5", f"{ci.qual}.__init__", len(asg) == 1 and unparse(asg[0].value) == f"{func_params(init)[1]}()", site(repo, init),
             "self.target = target()", "sampler does not work on a conditioned copy of the joint", init)
+
+
+def _configured_counts(chk, repo, ci):
+    """num_sampling_steps: the constructor stores the user's mapping; every later write to it (whole mapping or one key) either is guarded by
+    `is None` / `not in` on that mapping, or is a dict merge in which the user's mapping comes LAST (later entries win in {**a, **b})."""
+    FIELD = "self.num_sampling_steps"
+    init = repo.method(ci, "__init__")[1]
+    stored = [s for s in ast.walk(init) if isinstance(s, ast.Assign) and path_of(s.targets[0]) == FIELD]
+    params = func_params(init)
+    if len(stored) != 1 or path_of(stored[0].value) not in params:
+        raise AnchorError(f"{ci.qual}.__init__: storing of the num_sampling_steps argument not recognised")
+    problems = []
+    n_writes = 0
+    for kind, name, fn in ci.all_functions():
+        if fn is init:
+            continue
+        g = None
+        for s in ast.walk(fn):
+            tgt = None
+            if isinstance(s, ast.Assign):
+                t = s.targets[0]
+                if path_of(t) == FIELD:
+                    tgt = "whole"
+                elif isinstance(t, ast.Subscript) and path_of(t.value) == FIELD:
+                    tgt = "key"
+            elif isinstance(s, ast.Expr) and isinstance(s.value, ast.Call) and (call_name(s.value) or "") in (FIELD + ".update", FIELD + ".setdefault"):
+                tgt = "update" if call_name(s.value).endswith("update") else None
+            if tgt is None:
+                continue
+            n_writes += 1
+            if g is None:
+                g = CFG(fn)
+            node = g.node_of(s)
+            guards = g.guards_of(node)
+            gtxt = [(unparse(t.ast), lab) for t, lab in guards]
+            if tgt == "whole":
+                v = s.value
+                if any(tx == f"{FIELD} is None" and lab == "T" for tx, lab in gtxt) or any(tx == f"{FIELD} is not None" and lab == "F" for tx, lab in gtxt):
+                    continue
+                if isinstance(v, ast.Dict) and any(k is None for k in v.keys):
+                    # {**a, **b}: the LAST unpacked mapping mentioning the field must come after every other unpacked mapping
+                    spreads = [val for k, val in zip(v.keys, v.values) if k is None]
+                    idx = [i for i, sp in enumerate(spreads) if FIELD in {path_of(a) for a in ast.walk(sp) if isinstance(a, (ast.Attribute, ast.Name))}]
+                    if idx and idx[-1] == len(spreads) - 1:
+                        continue
+                    problems.append(f"{name}: `{unparse(s)[:90]}` merges the defaults AFTER the configured mapping; later entries win, so every configured "
+                                    f"count is replaced by the default")
+                    continue
+                problems.append(f"{name}: `{unparse(s)[:80]}` replaces the configured mapping without an `is None` guard")
+            elif tgt == "key":
+                key = unparse(s.targets[0].slice)
+                if any(tx == f"{key} not in {FIELD}" and lab == "T" for tx, lab in gtxt) or any(tx == f"{key} in {FIELD}" and lab == "F" for tx, lab in gtxt):
+                    continue
+                problems.append(f"{name}: `{unparse(s)[:80]}` overwrites a possibly configured count (no `not in` guard)")
+            else:
+                problems.append(f"{name}: `{unparse(s)[:80]}` updates the configured mapping in bulk")
+    if n_writes == 0:
+        raise AnchorError(f"{ci.qual}: no default initialisation of num_sampling_steps found")
+    chk.add("C09-R3", f"{ci.qual}/configured-counts", not problems, site(repo, init),
+            f"{n_writes} writes of defaults, each guarded so that configured counts win", "; ".join(problems), init)
